@@ -503,13 +503,21 @@ mod verif_cex {
             .enumerate()
             .filter_map(|(i, s)| key_span(s, config.mode).map(|(a, b)| (built.line_offsets[i] + a, &s.text[a..b])))
             .collect();
+        // C13: "non-numeric keys under numeric sort" are a hard error wherever the key stands (the first
+        // or only key included); the scan stops at the first key that is either not a number or out of order.
+        if matches!(fmt, Fmt::Num) {
+            if let Some((_, first)) = keys.first() {
+                if ref_number(first).is_none() {
+                    return Expect::Error;
+                }
+            }
+        }
         for w in keys.windows(2) {
             let (prev, cur) = (w[0].1, w[1].1);
             let ord = match fmt {
                 Fmt::Lex => ref_lex_cmp(prev, cur),
                 Fmt::Num => match (ref_number(prev), ref_number(cur)) {
                     (Some(p), Some(c)) => p.cmp(&c),
-                    // a key that is not a number, once it has to be compared, is a hard error (C13)
                     _ => return Expect::Error,
                 },
             };
